@@ -2,8 +2,10 @@ package main
 
 import (
 	"fmt"
+	"go/constant"
 	"go/token"
 	"go/types"
+	"sort"
 	"strings"
 
 	"golang.org/x/tools/go/ssa"
@@ -1227,5 +1229,486 @@ func (ea *errAnalysis) runE3Strict(rule string, fns ...*ssa.Function) {
 		if n == 0 {
 			c.anchorMissing(rule, "no iterator loop in "+l.fname(fn))
 		}
+	}
+}
+
+// ---------------------------------------------------------------------------
+// E7: a sentinel that is matched must be able to arrive
+//
+// strict[F]  = sentinels (package-level error variables) F can return with
+//              their identity preserved: returned directly, returned from a
+//              callee unchanged (not on the negative edge of a match of that
+//              very sentinel), or wrapped with %w;
+// loose[F]   = the same, but every wrapping propagates and filters are ignored.
+// A consumer `errors.Is(e, S)` / `e == S` whose e comes from calls to G1..Gn
+// is refuted when S ∈ loose[Gi] for some i but S ∉ strict[Gi] for all i: the
+// decision the consumer takes on S (skip a missing version, stop a retry) can
+// no longer be taken, because S is filtered out or flattened with %v on the way.
+
+type sentinelSets map[*ssa.Function]map[*ssa.Global]bool
+
+func (ea *errAnalysis) sentinelOf(v ssa.Value) *ssa.Global {
+	ld, ok := stripTrivial(v).(*ssa.UnOp)
+	if !ok || ld.Op != token.MUL {
+		return nil
+	}
+	g, ok := ld.X.(*ssa.Global)
+	if !ok || !isErrorType(ld.Type()) || g.Pkg == nil || !strings.HasPrefix(g.Pkg.Pkg.Path(), ea.l.ModPath) {
+		return nil
+	}
+	return g
+}
+
+// matchOf: instruction tests error value x against sentinel S; returns (x, S, edge on which it matches).
+func (ea *errAnalysis) matchOf(cond ssa.Value) (x ssa.Value, s *ssa.Global, matchSucc int, ok bool) {
+	cond = stripTrivial(cond)
+	neg := false
+	if u, isU := cond.(*ssa.UnOp); isU && u.Op == token.NOT {
+		cond, neg = stripTrivial(u.X), true
+	}
+	switch c := cond.(type) {
+	case *ssa.Call:
+		if f := staticCallee(&c.Call); f != nil && f.String() == "errors.Is" && len(c.Call.Args) == 2 {
+			if g := ea.sentinelOf(c.Call.Args[1]); g != nil {
+				succ := 0
+				if neg {
+					succ = 1
+				}
+				return c.Call.Args[0], g, succ, true
+			}
+		}
+	case *ssa.BinOp:
+		if c.Op == token.EQL || c.Op == token.NEQ {
+			for _, p := range [][2]ssa.Value{{c.X, c.Y}, {c.Y, c.X}} {
+				if g := ea.sentinelOf(p[1]); g != nil {
+					succ := 0
+					if c.Op == token.NEQ {
+						succ = 1
+					}
+					if neg {
+						succ = 1 - succ
+					}
+					return p[0], g, succ, true
+				}
+			}
+		}
+	}
+	return nil, nil, 0, false
+}
+
+func (ea *errAnalysis) runE7(rule string, only func(fn *ssa.Function) bool) {
+	c, l := ea.c, ea.l
+	funcs := ea.scopeFuncs()
+	strict, loose := sentinelSets{}, sentinelSets{}
+	add := func(m sentinelSets, f *ssa.Function, g *ssa.Global) bool {
+		if m[f] == nil {
+			m[f] = map[*ssa.Global]bool{}
+		}
+		if m[f][g] {
+			return false
+		}
+		m[f][g] = true
+		return true
+	}
+	// sources of a returned error value: sentinel loads, callee results, wrappers
+	type src struct {
+		g       *ssa.Global   // direct sentinel
+		callee  []*ssa.Function
+		wrapped bool // through fmt.Errorf without %w
+	}
+	var sourcesOf func(v ssa.Value, seen map[ssa.Value]bool, flat bool) []src
+	sourcesOf = func(v ssa.Value, seen map[ssa.Value]bool, flat bool) []src {
+		v = stripTrivial(v)
+		if v == nil || seen[v] {
+			return nil
+		}
+		seen[v] = true
+		if g := ea.sentinelOf(v); g != nil {
+			return []src{{g: g, wrapped: flat}}
+		}
+		switch x := v.(type) {
+		case *ssa.Phi:
+			var out []src
+			for _, e := range x.Edges {
+				out = append(out, sourcesOf(e, seen, flat)...)
+			}
+			return out
+		case *ssa.MakeInterface:
+			return sourcesOf(x.X, seen, flat)
+		case *ssa.Extract:
+			if call, ok := x.Tuple.(*ssa.Call); ok {
+				return []src{{callee: l.calleesOf(call), wrapped: flat}}
+			}
+		case *ssa.Call:
+			if f := staticCallee(&x.Call); f != nil && (f.String() == "fmt.Errorf" || f.String() == "errors.Join") {
+				keeps := f.String() == "errors.Join"
+				if ts, ok := textsOfRaw(x.Call.Args[0]); ok && f.String() == "fmt.Errorf" {
+					keeps = true
+					for _, t := range ts {
+						if !strings.Contains(t, "%w") {
+							keeps = false
+						}
+					}
+				}
+				var out []src
+				args := x.Call.Args
+				if f.String() == "fmt.Errorf" {
+					args = args[1:]
+				}
+				for _, a := range args {
+					vals, ok := variadicValues(a)
+					if !ok {
+						vals = []ssa.Value{a}
+					}
+					for _, e := range vals {
+						if mi, isMI := e.(*ssa.MakeInterface); isMI {
+							e = mi.X
+						}
+						if ci, isCI := e.(*ssa.ChangeInterface); isCI {
+							e = ci.X
+						}
+						if isErrorType(e.Type()) {
+							out = append(out, sourcesOf(e, seen, flat || !keeps)...)
+						}
+					}
+				}
+				return out
+			}
+			return []src{{callee: l.calleesOf(x), wrapped: flat}}
+		case *ssa.UnOp:
+			if x.Op == token.MUL {
+				if al, ok := x.X.(*ssa.Alloc); ok {
+					var out []src
+					for _, r := range refs(al) {
+						if st, ok := r.(*ssa.Store); ok && st.Addr == al {
+							out = append(out, sourcesOf(st.Val, seen, flat)...)
+						}
+					}
+					return out
+				}
+			}
+		}
+		return nil
+	}
+	// per function: the sources of every returned error, with the sentinels filtered on the way
+	type retSrc struct {
+		s        src
+		filtered map[*ssa.Global]bool
+	}
+	perFn := map[*ssa.Function][]retSrc{}
+	for _, fn := range funcs {
+		ei := errResultIndex(fn.Signature)
+		if ei < 0 {
+			continue
+		}
+		for _, r := range returnsOf(fn) {
+			if isRecoverReturn(r) {
+				continue
+			}
+			rv := retVal(r, ei)
+			// sentinels that cannot be in rv here: the return is dominated by the non-matching edge of a test of rv
+			filtered := map[*ssa.Global]bool{}
+			for _, b := range fn.Blocks {
+				iff := ifOf(b)
+				if iff == nil {
+					continue
+				}
+				// conjunctions: look through `a && b` phis is not needed: SSA splits them into nested Ifs
+				x, g, ms, ok := ea.matchOf(iff.Cond)
+				if !ok {
+					continue
+				}
+				if stripTrivial(x) == stripTrivial(rv) && edgeDominates(b, 1-ms, r.Block()) {
+					filtered[g] = true
+				}
+			}
+			for _, s := range sourcesOf(rv, map[ssa.Value]bool{}, false) {
+				perFn[fn] = append(perFn[fn], retSrc{s, filtered})
+			}
+		}
+	}
+	for changed := true; changed; {
+		changed = false
+		for fn, rs := range perFn {
+			for _, r := range rs {
+				if r.s.g != nil {
+					if add(loose, fn, r.s.g) {
+						changed = true
+					}
+					if !r.s.wrapped && !r.filtered[r.s.g] && add(strict, fn, r.s.g) {
+						changed = true
+					}
+					continue
+				}
+				for _, cal := range r.s.callee {
+					for g := range loose[cal] {
+						if add(loose, fn, g) {
+							changed = true
+						}
+					}
+					if !r.s.wrapped {
+						for g := range strict[cal] {
+							if !r.filtered[g] && add(strict, fn, g) {
+								changed = true
+							}
+						}
+					}
+				}
+			}
+		}
+	}
+	// consumers
+	for _, fn := range funcs {
+		if only != nil && !only(fn) {
+			continue
+		}
+		for _, b := range fn.Blocks {
+			iff := ifOf(b)
+			if iff == nil {
+				continue
+			}
+			x, g, _, ok := ea.matchOf(iff.Cond)
+			if !ok {
+				continue
+			}
+			var callees []*ssa.Function
+			for _, s := range sourcesOf(x, map[ssa.Value]bool{}, false) {
+				callees = append(callees, s.callee...)
+			}
+			if len(callees) == 0 {
+				continue
+			}
+			anyLoose, anyStrict := false, false
+			var names []string
+			for _, cal := range callees {
+				if loose[cal][g] {
+					anyLoose = true
+					names = append(names, l.fname(cal))
+				}
+				if strict[cal][g] {
+					anyStrict = true
+				}
+			}
+			if !anyLoose {
+				continue
+			}
+			sort.Strings(names)
+			key := l.fname(fn) + " matches " + g.Name() + " on the error of " + strings.Join(dedupe(names), ", ")
+			c.decide(rule, key, l.ipos(iff), anyStrict, "the sentinel can arrive with its identity",
+				g.Name()+" can no longer arrive here with its identity (it is filtered out or flattened with a non-%w format on the way): the branch taken on it — skipping a missing version, ending a retry — is dead")
+		}
+	}
+}
+
+// textsOfRaw: compile-time text(s) of a string value without touching verbs.
+func textsOfRaw(v ssa.Value) ([]string, bool) {
+	v = stripTrivial(v)
+	switch x := v.(type) {
+	case *ssa.Const:
+		if x.Value != nil && x.Value.Kind() == constant.String {
+			return []string{constant.StringVal(x.Value)}, true
+		}
+	case *ssa.Phi:
+		var out []string
+		for _, e := range x.Edges {
+			t, ok := textsOfRaw(e)
+			if !ok {
+				return nil, false
+			}
+			out = append(out, t...)
+		}
+		return out, true
+	}
+	return nil, false
+}
+
+// ---------------------------------------------------------------------------
+// sticky error fields: not overwritten in a loop, and an error invalidates
+
+// stickyTypes lists struct types of the scope that have an `error` field and
+// an Error() method (iterators).
+func (ea *errAnalysis) stickyFields() map[*types.Var]*types.Named {
+	out := map[*types.Var]*types.Named{}
+	l := ea.l
+	for path, sp := range l.byPkg {
+		if path != l.ModPath && !strings.HasPrefix(path, l.ModPath+"/") {
+			continue
+		}
+		for _, name := range sp.Pkg.Scope().Names() {
+			tn, ok := sp.Pkg.Scope().Lookup(name).(*types.TypeName)
+			if !ok {
+				continue
+			}
+			named, ok := tn.Type().(*types.Named)
+			if !ok {
+				continue
+			}
+			st, ok := named.Underlying().(*types.Struct)
+			if !ok {
+				continue
+			}
+			hasErrorM := false
+			ms := l.Prog.MethodSets.MethodSet(types.NewPointer(named))
+			for i := 0; i < ms.Len(); i++ {
+				if ms.At(i).Obj().Name() == "Error" {
+					hasErrorM = true
+				}
+			}
+			if !hasErrorM {
+				continue
+			}
+			for i := 0; i < st.NumFields(); i++ {
+				if isErrorType(st.Field(i).Type()) {
+					out[st.Field(i)] = named
+				}
+			}
+		}
+	}
+	return out
+}
+
+// runStickyLoop: a store of a possibly non-nil error into a sticky error field
+// must not be able to reach itself again (loop) along a path on which that
+// error was not found nil: the later store overwrites the error that ended —
+// or should have ended — the walk (`for … { x, it.err = load(); if it.err == nil {…} }`).
+func (ea *errAnalysis) runStickyLoop(rule string, only func(fn *ssa.Function) bool) {
+	c, l := ea.c, ea.l
+	sticky := ea.stickyFields()
+	for _, fn := range ea.scopeFuncs() {
+		if only != nil && !only(fn) {
+			continue
+		}
+		allInstrs(fn, func(in ssa.Instruction) {
+			st, ok := in.(*ssa.Store)
+			if !ok {
+				return
+			}
+			fa, ok := st.Addr.(*ssa.FieldAddr)
+			if !ok {
+				return
+			}
+			f := fieldVar(fa.X.Type(), fa.Field)
+			if _, isSticky := sticky[f]; !isSticky || isNilConst(stripTrivial(st.Val)) {
+				return
+			}
+			if _, isK := stripTrivial(st.Val).(*ssa.UnOp); isK && ea.sentinelOf(st.Val) != nil {
+				return // constant sentinel, stored once
+			}
+			v := stripTrivial(st.Val)
+			// forward walk; at a nil test of v / of the field, follow only the non-nil edge
+			seen := map[*ssa.BasicBlock]bool{}
+			again := false
+			var walk func(b *ssa.BasicBlock, from int)
+			walk = func(b *ssa.BasicBlock, from int) {
+				for i := from; i < len(b.Instrs); i++ {
+					x := b.Instrs[i]
+					if x == ssa.Instruction(st) {
+						again = true
+						return
+					}
+					if iff, isIf := x.(*ssa.If); isIf {
+						if t, nn, isNil := nilCond(iff.Cond); isNil {
+							t = stripTrivial(t)
+							if t == v || isLoadOfField(f)(t) {
+								s := b.Succs[nn]
+								if !seen[s] {
+									seen[s] = true
+									walk(s, 0)
+								}
+								return
+							}
+						}
+					}
+				}
+				for _, s := range b.Succs {
+					if !seen[s] {
+						seen[s] = true
+						walk(s, 0)
+					}
+				}
+			}
+			walk(st.Block(), instrIndex(st)+1)
+			key := l.fname(fn) + " stores into " + fieldName(fa.X.Type(), fa.Field) + " in a loop"
+			if again {
+				c.bad(rule, key, l.ipos(st), "the sticky error field is assigned again on a path on which the previous error was not found nil: a failed step is overwritten by the next successful one and the walk silently skips what the failed step should have delivered")
+			} else {
+				c.ok(rule, key, l.ipos(st), "cannot be overwritten by itself while non-nil")
+			}
+		})
+	}
+}
+
+// runErrorInvalidates: in a method of an iterator type that has both a sticky
+// error field and a validity flag, every store of a possibly non-nil error is
+// followed on every path to a return by a store to the validity flag — an
+// iterator that failed must not stay valid (its accessors dereference state
+// the failed step did not produce).
+func (ea *errAnalysis) runErrorInvalidates(rule string, only func(fn *ssa.Function) bool) {
+	c, l := ea.c, ea.l
+	sticky := ea.stickyFields()
+	for _, fn := range ea.scopeFuncs() {
+		if only != nil && !only(fn) {
+			continue
+		}
+		recv := fn.Signature.Recv()
+		if recv == nil {
+			continue
+		}
+		rn := derefNamed(recv.Type())
+		if rn == nil {
+			continue
+		}
+		var validF *types.Var
+		if stt, ok := rn.Underlying().(*types.Struct); ok {
+			for i := 0; i < stt.NumFields(); i++ {
+				if stt.Field(i).Name() == "valid" {
+					validF = stt.Field(i)
+				}
+			}
+		}
+		if validF == nil {
+			continue
+		}
+		// a Valid() that itself consults the error field makes "error ⇒ invalid" hold by construction
+		validReadsErr := map[*types.Var]bool{}
+		if pkg := rn.Obj().Pkg(); pkg != nil {
+			if vm := l.Prog.LookupMethod(types.NewPointer(rn), pkg, "Valid"); vm != nil && vm.Blocks != nil {
+				allInstrs(vm, func(x ssa.Instruction) {
+					if ld, ok := x.(*ssa.UnOp); ok && ld.Op == token.MUL {
+						if fa, ok := ld.X.(*ssa.FieldAddr); ok {
+							validReadsErr[fieldVar(fa.X.Type(), fa.Field)] = true
+						}
+					}
+				})
+			}
+		}
+		allInstrs(fn, func(in ssa.Instruction) {
+			st, ok := in.(*ssa.Store)
+			if !ok {
+				return
+			}
+			fa, ok := st.Addr.(*ssa.FieldAddr)
+			if !ok {
+				return
+			}
+			f := fieldVar(fa.X.Type(), fa.Field)
+			if owner, isSticky := sticky[f]; !isSticky || owner.Obj() != rn.Obj() || isNilConst(stripTrivial(st.Val)) {
+				return
+			}
+			if validReadsErr[f] {
+				c.ok(rule, l.fname(fn)+" error stored ⇒ validity re-decided", l.ipos(st), "Valid() consults the error field")
+				return
+			}
+			escapes := reachableAfter(st, func(x ssa.Instruction) bool {
+				r, isRet := x.(*ssa.Return)
+				return isRet && !isRecoverReturn(r)
+			}, func(x ssa.Instruction) bool { return isStoreToField(x, validF) })
+			key := l.fname(fn) + " error stored ⇒ validity re-decided"
+			msg := ""
+			if len(escapes) > 0 {
+				msg = "a return at " + l.ipos(escapes[0]) + " is reachable after the error was stored without the validity flag being re-decided: the iterator stays valid after a failed step and its accessors use state the step did not produce"
+			}
+			c.decide(rule, key, l.ipos(st), len(escapes) == 0, "every path to a return passes a store to valid", msg)
+		})
 	}
 }
